@@ -233,8 +233,8 @@ type collectSink struct {
 
 func (s *collectSink) Receive(c pb.Chunk) (bool, bool) {
 	c.DeploymentId = deploymentID
-	c.Data = append([]byte(nil), c.Data...)
-	s.chunks = append(s.chunks, c)
+	s.chunks = append(s.chunks, c) // kept as handed over: chunks must not alias the writer's buffers
+
 	return true, false
 }
 func (s *collectSink) Close() error        { return nil }
